@@ -26,7 +26,7 @@ def run(rep, tier, replay):
                                ("expand", [t for t in shapes.EXPAND_QUICK if t[0] in ("xq_garbage", "xq_w1")])], pol)
     opts = "{{}, {\"k\"}, {\"c\"}, {\"f\"}, {\"t\"}, {\"k\", \"f\"}, {\"c\", \"f\"}, {\"v\"}, {\"k\", \"v\"}, {\"f\", \"v\"}, {\"c\", \"v\"}}"
     defs = dict(Modes=sets(["compress", "decompress"]), OptSets=opts, Kinds=sets(["regular", "hardlink", "missing"]),
-                Suffixes=sets(["", ".bz2"]), Existing=sets(["none", "file"]), Contents=sets(["good", "bad"]), ModeBits=sets(["0644", "4755"]), ErrModes="{FALSE, TRUE}")
+                Suffixes=sets(["", ".bz2"]), Existing=sets(["none", "file"]), Contents=sets(["good", "bad"]), ModeBits=sets(["0644", "4755"]), ErrModes="{FALSE, TRUE}", Stems="{\"x\"}")
     behs, r = inproc.gen("FileOps", dict(MaxOperands=2), ["Export"], "fo18", defs=defs, timeout=1500, workers=8, xmx="12g")
     if behs is None:
         raise vlib.Infra("FileOps.tla failed: " + r.text[-1500:])
